@@ -137,6 +137,7 @@ type c13State struct {
 	locs    []location
 	accPath []string
 	seq     int
+	dead    bool // the document was changed by a retrieval: stop judging this history
 }
 
 func (s *c13State) build(v interface{}) interface{} {
@@ -281,16 +282,26 @@ func runC13() *RunResult {
 			acfg.Present = true
 			pcfg := cfg
 			pcfg.Accessor = false
+			if st.dead {
+				o.Got = "skipped"
+				return
+			}
 			ares, aout := safeRetrieve(p.Text, st.real, cfgArgs(acfg))
 			o.Got = aout
 			if simrt.Aborted() != 0 {
 				return
 			}
-			st.verify(t, o, "retrieval (no Set called)")
+			pres, _ := safeRetrieve(p.Text, st.real, cfgArgs(pcfg))
+			if canon(st.real) != canon(st.model) {
+				// a retrieval changed the document: that is C04's finding, not a statement about
+				// what Set writes; the rest of this history cannot be judged against the model
+				t.probe("document-changed-by-retrieval(not-judged:C04)")
+				st.dead = true
+				return
+			}
 			if ares == nil {
 				return
 			}
-			pres, _ := safeRetrieve(p.Text, st.real, cfgArgs(pcfg))
 			if pres == nil || len(pres) != len(ares) {
 				t.probe("plain-and-accessor-results-disagree(not-judged)")
 				return
@@ -360,6 +371,10 @@ func runC13() *RunResult {
 			pickI := rn(64)
 			o := &Op{Kind: opCustom, Path: &PathSpec{Text: "Set"}}
 			o.Do = func(t *Task, o *Op) {
+				if st.dead {
+					o.Got = "skipped"
+					return
+				}
 				var cand []int
 				for i, l := range st.locs {
 					if l.ok && st.accs[i].Set != nil {
@@ -394,6 +409,10 @@ func runC13() *RunResult {
 			pickS := rn(1 << 16)
 			o := &Op{Kind: opCustom, Path: &PathSpec{Text: "direct update"}}
 			o.Do = func(t *Task, o *Op) {
+				if st.dead {
+					o.Got = "skipped"
+					return
+				}
 				// prefer slots that accessors stand for; else any slot of the document
 				var cand []location
 				for _, l := range st.locs {
@@ -422,6 +441,10 @@ func runC13() *RunResult {
 		case 6: // Get through every accessor (the oracle does exactly that)
 			o := &Op{Kind: opCustom, Path: &PathSpec{Text: "Get all"}}
 			o.Do = func(t *Task, o *Op) {
+				if st.dead {
+					o.Got = "skipped"
+					return
+				}
 				o.Got = fmt.Sprintf("%d accessors", len(st.accs))
 				st.verify(t, o, "Get")
 			}
